@@ -99,6 +99,8 @@ def r1_layout(ctx):
         if isinstance(t, tuple) and t[0] == "var" and len(t) > 2:
             t = o.init_of(t[2])
         okslice = any(is_call_term(s, "::index") and var_name(s[3][0]) == "src" and "RangeTo" in fmt(s[3][1]) and ("=%d" % H) in fmt(s[3][1]) for s in subterms(t))
+        # `src.split_at(HEADER).0` is the same peek (split_at borrows, it does not consume)
+        okslice = okslice or any(is_call_term(s, "::split_at") and len(s[3]) == 2 and var_name(s[3][0]) == "src" and const_value_(s[3][1]) == H for s in subterms(t))
         ctx.ob("R03.1", "decode:peek-slice", same and okslice, ld[0][2].site, "all header fields are read from `&src[..HEADER_OVERHEAD_SIZE]`" if same and okslice else
                "header fields are not read from one peek slice of exactly HEADER bytes of src: %s" % fmt(t)[:160])
 
@@ -248,9 +250,41 @@ def r3_totality(ctx):
     conds = ctx.conds(frm)
     sw = [c for c in conds.all() if c.kind == "int"]
     if not sw:
-        ctx.missing("R03.3", "switch in From<u8> for Command")
-        return
-    sw = sw[0]
+        # the table form: CONST_TABLE.get(usize::from(byte)).copied().unwrap_or(Command::Waste) — total by construction
+        # (`get` cannot fail); the mapping is read from the evaluated constant
+        o = ctx.origins(frm)
+        rets = [o.of_operand(rv["op"]) for kind, bi, si, rv in frm.defs().get(0, []) if kind == "assign" and rv["r"] == "use"] + \
+               [o._call(t_, bi, (), 0, frozenset()) for kind, bi, si, t_ in frm.defs().get(0, []) if kind == "call"]
+        tbl = None
+        dflt = None
+        for t in rets:
+            for s_ in subterms(t):
+                if is_call_term(s_, "Option::unwrap_or", "::unwrap_or") and len(s_[3]) == 2:
+                    d_ = s_[3][1]
+                    if isinstance(d_, tuple) and d_ and d_[0] == "agg":
+                        dflt = d_[2]
+                if is_call_term(s_, "slice::get", "::get") and len(s_[3]) == 2:
+                    c0 = s_[3][0]
+                    idx_ = s_[3][1]
+                    byte_ix = isinstance(idx_, tuple) and idx_ and idx_[0] == "cast" and isinstance(idx_[3], tuple) and idx_[3][0] == "var"
+                    if isinstance(c0, tuple) and c0 and c0[0] == "const" and len(c0) > 2 and c0[2] and byte_ix:
+                        for n_, cdef in ctx.P.consts.items():
+                            if n_.split("::")[-1] == c0[2] and cdef.get("array"):
+                                tbl = [int(x) for x in cdef["array"]]
+        if tbl is None or dflt is None:
+            ctx.missing("R03.3", "switch (or constant lookup table with get().unwrap_or(..)) in From<u8> for Command")
+            return
+        byname = {d_: n_ for n_, d_ in variants}
+        for name, discr in variants:
+            got = byname.get(tbl[discr]) if discr < len(tbl) else dflt
+            ctx.ob("R03.3", "From<u8>:%d" % discr, got == name, "", "%d -> Command::%s (table entry)" % (discr, name) if got == name else
+                   "byte %d decodes to Command::%s but the enum discriminant %d is Command::%s" % (discr, got, discr, name))
+        extra = [i for i, v in enumerate(tbl) if i not in {d_ for n_, d_ in variants} and byname.get(v) != "Waste"]
+        ctx.ob("R03.3", "From<u8>:otherwise", dflt == "Waste" and not extra, "", "bytes beyond the table (and unused entries) -> Waste" if dflt == "Waste" and not extra else
+               "unknown command bytes map to %s instead of Waste" % (dflt if dflt != "Waste" else "table entry %s" % extra[:3]))
+        sw = None
+    else:
+        sw = sw[0]
     o = ctx.origins(frm)
     # each arm assigns an aggregate Command::X to the return place
     arm_variant = {}
@@ -269,22 +303,29 @@ def r3_totality(ctx):
         return None
 
     table = {}
-    for s, vals in sw.by_succ.items():
+    for s, vals in (sw.by_succ.items() if sw is not None else ()):
         v = variant_of_succ(s)
         for x in vals:
             table[x] = v
-    for name, discr in variants:
+    for name, discr in (variants if sw is not None else ()):
         got = table.get(discr)
         ctx.ob("R03.3", "From<u8>:%d" % discr, got == name, "", "%d -> Command::%s" % (discr, name) if got == name else
                "byte %d decodes to Command::%s but the enum discriminant %d is Command::%s" % (discr, got, discr, name))
-    ctx.ob("R03.3", "From<u8>:otherwise", table.get("otherwise") == "Waste", "", "unknown bytes -> Waste (inert padding)" if table.get("otherwise") == "Waste" else
-           "unknown command bytes map to %s instead of Waste" % table.get("otherwise"))
+    if sw is not None:
+        ctx.ob("R03.3", "From<u8>:otherwise", table.get("otherwise") == "Waste", "", "unknown bytes -> Waste (inert padding)" if table.get("otherwise") == "Waste" else
+               "unknown command bytes map to %s instead of Waste" % table.get("otherwise"))
     tou8 = ctx.body("R03.3", TO_U8)
     if tou8 is not None:
         o2 = ctx.origins(tou8)
         rets = [o2._rvalue(rv, (), bi, 0, frozenset()) for kind, bi, si, rv in tou8.defs().get(0, []) if kind == "assign"]
         ok = len(rets) == 1 and isinstance(rets[0], tuple) and rets[0][0] == "cast" and isinstance(rets[0][3], tuple) and rets[0][3][0] == "discr"
         ctx.ob("R03.3", "From<Command>-for-u8", ok, "", "the command byte is the enum discriminant" if ok else "u8::from(Command) is not the discriminant cast: %s" % [fmt(r) for r in rets])
+
+
+def checked_len_conversion(t):
+    """`u16::try_from(item.data.len())` whose failure leaves the function (the operand is the success payload): the lossless
+    spelling of a guarded `len as u16`"""
+    return is_call_term(t, "TryFrom<usize> for u16>::try_from", "TryInto<u16>>::try_into", "u16::try_from") and len(t[3]) == 1 and is_call_term(t[3][0], "Bytes::len") and var_name(t[3][0][3][0]) == "item.data"
 
 
 def r4_encoder(ctx):
@@ -300,8 +341,11 @@ def r4_encoder(ctx):
         return
     t = lens[0][3][1]
     is_len = isinstance(t, tuple) and t[0] == "cast" and is_call_term(t[3], "Bytes::len") and var_name(t[3][3][0]) == "item.data"
-    ctx.ob("R03.4", "encode:length-is-payload-length", is_len, lens[0][2].site, "length field = item.data.len() as u16" if is_len else "length field operand is %s" % fmt(t)[:120])
-    if not ctx.floor("R03.4", "usize->u16 cast of the payload length", len(casts), 1):
+    checked = checked_len_conversion(t)
+    ctx.ob("R03.4", "encode:length-is-payload-length", is_len or checked, lens[0][2].site, "length field = item.data.len() as u16" if is_len else ("length field = u16::try_from(item.data.len())?" if checked else "length field operand is %s" % fmt(t)[:120]))
+    if checked and not casts:
+        ctx.ob("R03.4", "encode:length-cast-guarded", True, lens[0][2].site, "the length is converted with u16::try_from, which fails (and encode returns the error) for a payload above 65535 bytes")
+    elif not ctx.floor("R03.4", "usize->u16 cast of the payload length", len(casts), 1):
         return
     for c in casts:
         ok, det, term = check_cast(enc, cfg, conds, o, c)
